@@ -232,6 +232,10 @@ class SymCtx(object):
                 out.append(tuple(Num("float", r=t.arg(i)) for i in range(t.num_args())))
         return out
 
+    def min_args(self):
+        """argument tuples of the min(...) calls made by the code so far"""
+        return list(self.it.info.get("min_args", []))
+
     def fresh_int(self, name):
         return self.it.fresh(name, "int")
 
